@@ -11,7 +11,7 @@
    common representation are representable (otherwise the C++ has signed overflow = UB).
    All statements hold for ALL periods and ALL counts in that domain. *)
 From Tetl Require Import Lib.Base C12.Model C12.Spec C12.ProofsArith C12.ProofsCast C12.ProofsCommon
-  C12.ProofsRound C12.ProofsSpec C12.ProofsScalar C12.ProofsAlgebra C12.ProofsTotal.
+  C12.ProofsRound C12.ProofsSpec C12.ProofsScalar C12.ProofsAlgebra C12.ProofsTotal C12.ProofsRatio.
 Local Open Scope Z_scope.
 
 (** * ratio, gcd, lcm *)
@@ -30,6 +30,17 @@ Theorem C12_ratio_normalises : forall w N D, 0 < N <= max64 -> 0 < D <= max64 ->
   /\ period_ok (N / Z.gcd N D) (D / Z.gcd N D) = true.
 Proof. intros w N D HN HD. split; [apply mk_dty_spec|apply reduced_period_ok]; assumption. Qed.
 Print Assumptions C12_ratio_normalises.
+
+(* ratio<N, D> with operands of either sign: the denominator is made positive, the fraction reduced,
+   the value N/D preserved *)
+Theorem C12_ratio_signed : forall N D, D <> 0 -> - max64 <= N <= max64 -> - max64 <= D <= max64 ->
+  let g := Z.gcd N D in
+  ratio_m N D = Val (Z.sgn N * Z.sgn D * (Z.abs N / g), Z.abs D / g)
+  /\ 0 < Z.abs D / g
+  /\ Z.gcd (Z.sgn N * Z.sgn D * (Z.abs N / g)) (Z.abs D / g) = 1
+  /\ (Z.sgn N * Z.sgn D * (Z.abs N / g)) * D = N * (Z.abs D / g).
+Proof. exact ratio_m_signed. Qed.
+Print Assumptions C12_ratio_signed.
 
 (** * duration_cast, floor, ceil, round, abs *)
 Theorem C12_duration_cast_trunc : forall w1 n1 d1 w2 n2 d2 c,
